@@ -9,6 +9,7 @@ mod docsession;
 mod docsync;
 mod features;
 mod format;
+mod histsession;
 mod script;
 mod trace;
 
@@ -41,6 +42,7 @@ fn main() {
         "docsync" => docsync::run(cases, max_fail, &opts),
         "diag" => diag::run(cases, max_fail, &opts),
         "format" => format::run(cases, max_fail, &opts),
+        "histsession" => histsession::run(cases, max_fail, &opts),
         "features" => features::run(cases, max_fail, &opts),
         "docsession" => docsession::run_sessions(cases, max_fail, &opts),
         "roundtrip" => docsession::run_roundtrip(cases, max_fail, &opts),
